@@ -237,7 +237,11 @@ def _run_property(prop_name, tier, seed, replay, verbose):
         for m in getattr(prop, 'PROOFS', ()):
             pr = tlc.prove(m)
             proofs.append(pr)
-            log('TLAPS %s: all %d obligations proved, %.1fs' % (m, pr['obligations'], pr['wall_s']))
+            if pr['proved']:
+                log('TLAPS %s: all %d obligations proved, %.1fs' % (m, pr['obligations'], pr['wall_s']))
+            else:
+                log('TLAPS %s: NOT re-proved in this run (%s) - the verdict below does not depend on it'
+                    % (m, pr['reason'][:200]))
 
     # ---- 2. cases --------------------------------------------------------
     gen_info = {}
